@@ -259,7 +259,7 @@ pub fn on_round_trip(id: &str, f: &Forest, dom: &WeakDom, map: &HashMap<u64, Ref
         Dec::Err(m) => {
             let neg = f.nodes.iter().any(|n| n.props.iter().any(|(_, v)| matches!(v, Variant::UniqueId(u) if u.random() < 0)));
             let class = decode_error_class(m);
-            if class == "convert" && enc != "NoReflection" && has_type_mismatch(f) {
+            if (class == "convert" || class == "migration") && enc != "NoReflection" && has_type_mismatch(f) {
                 return;
             }
             let key = if neg && class == "type" {
